@@ -121,6 +121,7 @@ func runC05(c *Ctx) {
 	// --- no hidden state: translation results cannot depend on earlier translations ---
 	c.checkNoLibraryGlobalWrites("library-global-state")
 	c.checkCodonLoopBound()
+	c.checkCodonAlignRowAdded("codonalign-row-added")
 
 	// --- R9 TranslateByReference: all-gap reference codon ------------------------
 	c.checkRefCodonAllGap()
